@@ -26,12 +26,13 @@ SHAPE_DFLT = {'int': '-1', 'str': '"D"', 'pair': '["D", -1]'}     # a list: `tup
 SHAPE_NOTIN = {'int': '99', 'str': '"zz"', 'pair': '("zz", 0)'}
 SHAPE_CAND = {'int': '[1, 2, 3, 4, 5]', 'str': 'K', 'pair': '[]'}
 
-FAULTS = {'none': None, 'KeyError': 'raise KeyError', 'ZeroDivisionError': 'q = 1 // 0', 'user': 'raise UE'}
+FAULTS = {'none': None, 'KeyError': 'raise KeyError', 'ZeroDivisionError': 'q = 1 // 0', 'user': 'raise UE', 'TypeError': 'raise FE'}
 
 PRELUDE = '''K = ["a", "b", "c", "d", "e", "f"]
 DFLT = %(dflt)s
 NOTIN = %(notin)s
 CAND = %(cand)s
+FE = TypeError("producer-fault")
 %(ue)sdef el(i):
     return %(el)s
 def fault(i):
@@ -231,7 +232,7 @@ def chain(ind, user):
     s = ''
     fams = (['UE'] if user else []) + FAMS
     for f in fams:
-        s += '%sexcept %s:\n%s    print("X", "%s")\n' % (ind, f, ind, f)
+        s += '%sexcept %s as e:\n%s    print("X", "%s")\n%s    print("I", e is FE)\n' % (ind, f, ind, f, ind)
     s += '%sexcept:\n%s    print("X", "other")\n' % (ind, ind)
     return s
 
@@ -354,8 +355,38 @@ GENS = {
             x = yield i * 100 + j
             print("E", tag, "got", x)
 ''',
+    # a return that travels through a finally block which itself yields (the return value must survive the suspension)
+    'retfin': '''def g_retfin(tag):
+    try:
+        x = yield 1
+        print("E", tag, "got", x)
+        if x == 5:
+            return 9
+        x = yield 2
+        print("E", tag, "got2", x)
+    finally:
+        print("E", tag, "fin")
+        y = yield 3
+        print("E", tag, "fingot", y)
+    print("E", tag, "after")
+    return 4
+''',
+    # delegation to an iterator that is not a generator but has send(): sent values must reach it
+    'yfc': '''def g_yfc(tag):
+    r = yield from SI(tag + "s")
+    print("E", tag, "r", r)
+    x = yield 50
+    print("E", tag, "got", x)
+''',
+    # delegation to a builtin iterator (no send method): next() works, send(non-None) raises AttributeError
+    'yfl': '''def g_yfl(tag):
+    r = yield from [10, 20]
+    print("E", tag, "r", r)
+    x = yield 30
+    print("E", tag, "got", x)
+''',
 }
-GEN_ORDER = ['acc', 'fin', 'exc', 'leak', 'mid', 'yf', 'yfv', 'nest']
+GEN_ORDER = ['acc', 'fin', 'exc', 'leak', 'mid', 'yf', 'yfv', 'nest', 'retfin', 'yfc', 'yfl']
 
 DRIVER = '''def res(tag, e):
     a = e.args
@@ -381,6 +412,8 @@ def nx(k):
         print("R", tag, "ValueError")
     except RuntimeError:
         print("R", tag, "RuntimeError")
+    except AttributeError:
+        print("R", tag, "AttributeError")
     except Exception:
         print("R", tag, "Exception")
 def sd(k, v):
@@ -401,6 +434,8 @@ def sd(k, v):
         print("R", tag, "ValueError")
     except RuntimeError:
         print("R", tag, "RuntimeError")
+    except AttributeError:
+        print("R", tag, "AttributeError")
     except Exception:
         print("R", tag, "Exception")
 def dr(n):
@@ -419,6 +454,25 @@ def dr(n):
                 break
         k = k + 1
 T = ["a", "b", "c"]
+class SI:
+    def __init__(self, tag):
+        self.tag = tag
+        self.acc = 0
+        self.n = 0
+    def __iter__(self):
+        return self
+    def __next__(self):
+        print("E", self.tag, "next")
+        return self.step(0)
+    def send(self, v):
+        print("E", self.tag, "send", v)
+        return self.step(v)
+    def step(self, v):
+        self.acc = self.acc + v
+        self.n = self.n + 1
+        if self.n > 2:
+            raise StopIteration(self.acc)
+        return self.acc
 '''
 
 
@@ -507,7 +561,7 @@ def run(tier, rep):
                 continue
             shape = shapes[0]
             variants = [('none', 0)]
-            for f in ('KeyError', 'ZeroDivisionError', 'user'):
+            for f in ('KeyError', 'ZeroDivisionError', 'user', 'TypeError'):
                 for p in ppos:
                     variants.append((f, p))
             for f, p in variants:
@@ -776,11 +830,11 @@ def run(tier, rep):
     rep.nontrivial = nontriv
     rep.samples = samples
     rep.extra = stats
-    rep.rule = ('(a) every consumer (%d) x every producer kind (%d) x fault in {none, KeyError, ZeroDivisionError, user-defined} x every position 0..%d the producer can fail at '
+    rep.rule = ('(a) every consumer (%d) x every producer kind (%d) x fault in {none, KeyError (class), ZeroDivisionError (raised by the VM), user-defined, TypeError (a pre-built instance whose identity the handler checks)} x every position 0..%d the producer can fail at '
                 '(+ each further element shape once without fault); non-trivial = distinct (consumer, producer, shape, fault, position) whose reference run reached the fault position (or no fault). '
                 '(b) %s; non-trivial = distinct (generator templates, operation sequence) that touches more than one generator'
                 % (len(CONSUMERS), len(PRODUCERS), N,
-                   '2 live generators, all 36 pairs of 8 templates: all 4^5 sequences of {next, send(v)} of length 5 (v alternates 3/5), and for 6 seeded pairs all 6^5 sequences of {next, send(3), send(5)}; every sequence ends by draining each generator' if quick else
+                   '2 live generators, all 66 pairs of 11 templates: all 4^5 sequences of {next, send(v)} of length 5 (v alternates 3/5), and for 6 seeded pairs all 6^5 sequences of {next, send(3), send(5)}; every sequence ends by draining each generator' if quick else
                    'over 3 live generators (8 seeded template triples + one with the raising-in-a-loop template): all 6^6 sequences of {next, send} of length 6 (send value alternates 3/5) plus all 3^8 generator orders of length 8 with 2 sampled next/send(3)/send(5) assignments each'))
     rep.assumptions = ['CPython 3.11 is the reference; exception types only', 'generator bodies never raise or leak StopIteration themselves (PEP 479)',
                        'dict/set results are shown in a fixed candidate order, never in iteration order',
